@@ -269,12 +269,48 @@ def no_value_calls(ctx, sut, fpm, rng):
                             f"{label}: expected {want[0]} {str(want[2])[:200]}, got {str(fpm.fp_result(got))[:200]}")
 
 
+def ill_typed_keyword_defaults(ctx, sut):
+    """Defaults whose validation raises TypeError rather than ValidationError (the DSL does not type
+    check keyword values): still 'returned as-is, never an error'."""
+    cases = [
+        ("Element(minimum='a', default=3)", lambda: sut.Element(minimum="a", default=3), 3),
+        ("Element(maximum=None, default=3)", lambda: sut.Element(maximum=None, default=3), 3),
+        ("String(pattern=5, default='x')", lambda: sut.String(pattern=5, default="x"), "x"),
+        ("Element(multipleOf='2', default=4)", lambda: sut.Element(multipleOf="2", default=4), 4),
+        ("Element(minLength='1', default='x')", lambda: sut.Element(minLength="1", default="x"), "x"),
+        ("Array(String(), minItems='1', default=['a'])", lambda: sut.Array(sut.String(), minItems="1", default=["a"]), ["a"]),
+    ]
+    for label, make, default in cases:
+        ctx.evaluation()
+        ctx.count("novalue.calls")
+        ctx.count("novalue.default_raises_typeerror")
+        try:
+            element = make()
+            got = element(sut.NotPassed())
+        except Exception as exc:  # pylint: disable=broad-except
+            ctx.witness("novalue_raised", {"dsl": label, "call": "el(NotPassed)"},
+                        f"{type(exc).__name__}: {exc!r}: an invalid default must come back as-is"[:300])
+            continue
+        if got != default:
+            ctx.witness("novalue_rule_broken", {"dsl": label}, f"expected the raw default {default!r}, got {got!r}")
+        # and as an omitted property
+        try:
+            owner = sut.Element(properties={"p": sut.Property(make())})
+            built = owner({})
+            if built["p"] != default:
+                ctx.witness("default_rule_broken", {"dsl": label}, f"omitted property holds {built['p']!r}")
+        except Exception as exc:  # pylint: disable=broad-except
+            ctx.witness("error_escaped", {"dsl": label, "call": "owner({})"}, f"{type(exc).__name__}: {exc!r}"[:300])
+
+
 def run_shard(ctx):
     from vlib import fingerprint as fpm  # pylint: disable=import-outside-toplevel
     from vlib import sut  # pylint: disable=import-outside-toplevel
 
     rng = ctx.rng
     counter = [0]
+    if ctx.shard == 0:
+        ill_typed_keyword_defaults(ctx, sut)
     for idx in range(ctx.params["objects"]):
         spec, owner, props, kinds, overlap = make_object(rng, counter)
         check_object(ctx, sut, fpm, rng, spec, owner, props, kinds, overlap)
